@@ -1,5 +1,352 @@
-/- C18 — property theorems only. -/
+/-
+C18 — Part writers: upload is initiated exactly once under every interleaving; sinks honour
+their contract.  Property theorems only; the invariants and their preservation proofs are
+in `Lemmas/C18.lean`.
+
+Threads are natural numbers (every `Nat` is a thread that starts at the first instruction),
+a schedule is any `List Nat`; all `*_once` theorems therefore hold for ANY number of threads
+and EVERY interleaving (induction over the schedule), including schedules that offer steps
+to blocked or finished threads.
+-/
 import OdcGeo.Model.C18
+import OdcGeo.Lemmas.C18
+
 namespace OdcGeo.C18
+
+/-! ## In-process variant (shared `MultiPartUpload`, process-wide lock) -/
+
+/-- The C18 claim about a state of the in-process protocol. -/
+structure Local.Once (s : Local.State) : Prop where
+  /-- at most one `create_multipart_upload`, and the counter is the number of such calls -/
+  one_create : s.creates ≤ 1 ∧ s.calls.countP Call.isCreate = s.creates
+  /-- no write / finalise failed because another thread won the initiation race -/
+  no_failure : ∀ t, s.pc t ≠ .failed
+  /-- every client call (create / upload_part / complete) carries the one upload id -/
+  one_id : ∀ c ∈ s.calls, c.id = 1
+  /-- `mpu.uploadId` is empty or that id -/
+  id_known : s.uploadId = 0 ∨ s.uploadId = 1
+  /-- the lock is held exactly by the thread that is inside the `with` block -/
+  lock_discipline : ∀ t, s.lock = some t ↔ Local.inCS (s.pc t) = true
+
+/-- **local_once**: repaired code, any threads, any schedule. -/
+theorem local_once (cfg : Local.Cfg) (hr : cfg.recheck = true) (sched : List Nat) :
+    Local.Once (Local.run cfg sched) := by
+  have hI := Local.runFrom_inv cfg hr sched _ (Local.inv_init cfg)
+  exact ⟨⟨hI.ids.2.2, hI.count⟩, fun t h => by have := hI.pcs t; rw [h] at this; exact this,
+    hI.calls, hI.ids.1, fun t => (hI.mutex t).symm⟩
+
+/-- A thread that has returned did its job: exactly one upload exists and its own
+`upload_part(part)` / `complete_multipart_upload` call under that id is in the log. -/
+theorem local_done_uploaded (cfg : Local.Cfg) (hr : cfg.recheck = true) (sched : List Nat) (t : Nat)
+    (hd : (Local.run cfg sched).pc t = .done) :
+    (Local.run cfg sched).creates = 1 ∧
+      (match cfg.kind t with
+       | .write p => Call.upload p 1 ∈ (Local.run cfg sched).calls
+       | .fin => Call.complete 1 ∈ (Local.run cfg sched).calls) := by
+  have hI := Local.runFrom_inv cfg hr sched _ (Local.inv_init cfg)
+  have := hI.pcs t
+  rw [hd] at this
+  exact ⟨hI.ids.2.1 this.1, this.2⟩
+
+/-- **local_progress**: a complete schedule over the threads `T` (nobody else was scheduled,
+and at the end no thread of `T` can take a step: no deadlock is possible) ends with every
+thread of `T` returned normally, i.e. (by `local_done_uploaded`) all parts uploaded. -/
+theorem local_progress (cfg : Local.Cfg) (hr : cfg.recheck = true) (T sched : List Nat)
+    (hs : ∀ t ∈ sched, t ∈ T) (hmax : ∀ t ∈ T, Local.enabled (Local.run cfg sched) t = false) :
+    ∀ t ∈ T, (Local.run cfg sched).pc t = .done := by
+  have hI := Local.runFrom_inv cfg hr sched _ (Local.inv_init cfg)
+  refine Local.all_done_of_stuck cfg _ hI T ?_ hmax
+  intro t hne
+  by_cases ht : t ∈ sched
+  · exact hs t ht
+  · exact absurd (Local.runFrom_pc_unscheduled cfg sched t ht Local.init) hne
+
+/-- Complete schedules exist and are short: a schedule over `T` contains at most `12·|T|`
+effective (non-stutter) steps, so any fair scheduler reaches a complete schedule. -/
+theorem local_bounded (cfg : Local.Cfg) (T : List Nat) (hnd : T.Nodup) (sched : List Nat)
+    (hs : ∀ t ∈ sched, t ∈ T) :
+    Sched.effective (Local.step cfg) Local.enabled Local.init sched ≤ 12 * T.length := by
+  have h := Sched.effective_bound (step := Local.step cfg) (enabled := Local.enabled)
+    (rem := fun s t => Local.remaining (s.pc t))
+    (Local.step_of_not_enabled cfg)
+    (fun s t t' h => by simp only [Local.step_pc_other cfg s h])
+    (Local.step_decreases cfg) T hnd sched Local.init hs
+  have h0 := Sched.total_const (fun (s : Local.State) t => Local.remaining (s.pc t)) Local.init 12
+    (fun _ => rfl) T
+  omega
+
+/-- the code as found (no re-check of `mpu.started` under the lock) -/
+def Local.asFound : Local.Cfg := { kind := fun t => .write (t + 1), recheck := false }
+
+/-- the race of finding F5: both threads read `started` before either initiates -/
+def Local.cexSchedule : List Nat := [0, 1, 0, 0, 0, 0, 0, 0, 1, 1, 1, 1]
+
+/-- **local_once_cex** (F5): on the code as found the second thread trips
+`assert self.uploadId == ""` in `initiate` — `local_once` is false without the repair. -/
+theorem local_once_cex : ¬ Local.Once (Local.run Local.asFound Local.cexSchedule) :=
+  fun h => h.no_failure 1 (by decide)
+
+/-- the same schedule (continued to completion) is harmless on the repaired code -/
+example : let s := Local.run { Local.asFound with recheck := true }
+            [0, 1, 0, 0, 0, 0, 0, 0, 0, 0, 0, 0, 1, 1, 1, 1, 1, 1, 1]
+    s.pc 0 = .done ∧ s.pc 1 = .done ∧ s.creates = 1 ∧ s.lock = none := by decide
+
+/-! ## Cluster variant (one copy per worker, shared Variable, distributed Lock) -/
+
+structure Dist.Once (s : Dist.State) : Prop where
+  one_create : s.creates ≤ 1 ∧ s.calls.countP Call.isCreate = s.creates
+  no_failure : ∀ t, s.pc t ≠ .failed
+  one_id : ∀ c ∈ s.calls, c.id = 1
+  /-- every worker's copy and the shared variable hold nothing or the one id -/
+  ids_known : (∀ w, s.wid w = 0 ∨ s.wid w = 1) ∧ (s.var = none ∨ s.var = some 1)
+  lock_discipline : ∀ t, s.lock = some t ↔ Dist.inCS (s.pc t) = true
+
+/-- **dist_once**: any assignment of threads to workers, any threads, any schedule — as long
+as no `finalise` has deleted the shared variable yet (`cleanup_client`, the very last
+action of a finalise). -/
+theorem dist_once (cfg : Dist.Cfg) (sched : List Nat) (hd : (Dist.run cfg sched).deleted = false) :
+    Dist.Once (Dist.run cfg sched) := by
+  have hI := Dist.runFrom_inv cfg sched _ (Dist.inv_init cfg) hd
+  exact ⟨⟨hI.ids.creates_le, hI.count⟩, fun t h => by have := hI.pcs t; rw [h] at this; exact this,
+    hI.calls, ⟨hI.ids.wid_range, hI.ids.var_range⟩, fun t => (hI.mutex t).symm⟩
+
+/-- With writers only the side condition is void: the variable is never deleted. -/
+theorem dist_once_writers (cfg : Dist.Cfg) (hk : ∀ t, cfg.kind t ≠ .fin) (sched : List Nat) :
+    Dist.Once (Dist.run cfg sched) :=
+  dist_once cfg sched
+    (Dist.runFrom_nofin cfg hk sched _ ⟨rfl, fun _ => ⟨by simp [Dist.init], by simp [Dist.init]⟩⟩).1
+
+theorem dist_done_uploaded (cfg : Dist.Cfg) (sched : List Nat) (t : Nat)
+    (hdel : (Dist.run cfg sched).deleted = false) (hd : (Dist.run cfg sched).pc t = .done) :
+    (Dist.run cfg sched).creates = 1 ∧
+      (match cfg.kind t with
+       | .write p => Call.upload p 1 ∈ (Dist.run cfg sched).calls
+       | .fin => Call.complete 1 ∈ (Dist.run cfg sched).calls) := by
+  have hI := Dist.runFrom_inv cfg sched _ (Dist.inv_init cfg) hdel
+  have := hI.pcs t
+  rw [hd] at this
+  exact this
+
+/-- **dist_progress**: a complete schedule over `T` ends with every thread of `T` returned. -/
+theorem dist_progress (cfg : Dist.Cfg) (T sched : List Nat)
+    (hdel : (Dist.run cfg sched).deleted = false)
+    (hs : ∀ t ∈ sched, t ∈ T) (hmax : ∀ t ∈ T, Dist.enabled (Dist.run cfg sched) t = false) :
+    ∀ t ∈ T, (Dist.run cfg sched).pc t = .done := by
+  have hI := Dist.runFrom_inv cfg sched _ (Dist.inv_init cfg) hdel
+  refine Dist.all_done_of_stuck cfg _ hI T ?_ hmax
+  intro t hne
+  by_cases ht : t ∈ sched
+  · exact hs t ht
+  · exact absurd (Dist.runFrom_pc_unscheduled cfg sched t ht Dist.init) hne
+
+theorem dist_bounded (cfg : Dist.Cfg) (T : List Nat) (hnd : T.Nodup) (sched : List Nat)
+    (hs : ∀ t ∈ sched, t ∈ T) :
+    Sched.effective (Dist.step cfg) Dist.enabled Dist.init sched ≤ 18 * T.length := by
+  have h := Sched.effective_bound (step := Dist.step cfg) (enabled := Dist.enabled)
+    (rem := fun s t => Dist.remaining (s.pc t))
+    (Dist.step_of_not_enabled cfg)
+    (fun s t t' h => by simp only [Dist.step_pc_other cfg s h])
+    (Dist.step_decreases cfg) T hnd sched Dist.init hs
+  have h0 := Sched.total_const (fun (s : Dist.State) t => Dist.remaining (s.pc t)) Dist.init 18
+    (fun _ => rfl) T
+  omega
+
+/-- thread 0 finalises on worker 0; thread 1 writes part 1 on worker 1 -/
+def Dist.lateCfg : Dist.Cfg := { kind := fun t => if t = 0 then .fin else .write 1, worker := fun t => t }
+
+/-- Why `dist_once` stops at the deletion: a first write that starts after a finalise has
+completed and deleted the variable initiates a second upload.  (Not reachable through
+`mpu_write`: the finalise task consumes the results of all writes.) -/
+theorem dist_after_delete_cex :
+    (Dist.run Dist.lateCfg (List.replicate 18 0 ++ List.replicate 18 1)).creates = 2 := by decide
+
+/-! ## File sink -/
+
+/-- **sink_finalise_concat**: for distinct listed parts that were all written, the repaired
+`finalise` leaves in the destination the concatenation of the parts in the order given
+(whatever `keep_parts`, whatever else is in the directory, empty parts included); the only
+possible error is the final `rmdir` when unlisted part files remain. -/
+theorem sink_finalise_concat (s : Sink) (ps : List Nat) (keep : Bool) (f : Nat → Bytes)
+    (hne : ps ≠ []) (hnd : ps.Nodup) (hw : ∀ p ∈ ps, s.lookup p = some (f p)) :
+    (Sink.finalise true s ps keep).1.dst = some (ps.flatMap f) ∧
+      ((Sink.finalise true s ps keep).2 = none ∨
+        ((Sink.finalise true s ps keep).2 = some .osError ∧ keep = false ∧
+          ∃ q ∈ s.parts, q.1 ∉ ps)) := by
+  cases ps with
+  | nil => exact absurd rfl hne
+  | cons first rest =>
+    have hnd' := List.nodup_cons.1 hnd
+    have hf := hw first List.mem_cons_self
+    obtain ⟨dir, parts, dst⟩ := s
+    have hw1 : ∀ q ∈ rest,
+        (Sink.mk dir (parts.filter (fun x => x.1 != first)) (some (f first))).lookup q = some (f q) := by
+      intro q hq
+      have hqp : q ≠ first := fun e => hnd'.1 (e ▸ hq)
+      have := Sink.lookup_unlink ⟨dir, parts, dst⟩ q first
+      simp only [Sink.unlink, Sink.lookup, hqp, if_false] at this ⊢
+      rw [this]
+      exact hw q (List.mem_cons_of_mem _ hq)
+    have h := Sink.appendParts_ok keep f rest _ hnd'.2 hw1
+    simp only [Sink.finalise, hf, Sink.unlink, h]
+    cases keep with
+    | true => simp [List.flatMap_cons]
+    | false =>
+      simp only [Bool.false_eq_true, if_false, Sink.filter_filter_contains]
+      split
+      · simp [List.flatMap_cons]
+      · rename_i hne'
+        refine ⟨by simp [List.flatMap_cons], Or.inr ⟨rfl, rfl, ?_⟩⟩
+        cases hfl : parts.filter (fun q => !(first :: rest).contains q.1) with
+        | nil => simp [hfl] at hne'
+        | cons x xs =>
+          have hx : x ∈ parts.filter (fun q => !(first :: rest).contains q.1) := by
+            rw [hfl]; exact List.mem_cons_self
+          have hx' := List.mem_filter.1 hx
+          exact ⟨x, hx'.1, by simpa using hx'.2⟩
+
+/-- … and removes its temporary parts: if every file of the parts directory is listed and
+`keep_parts` is false, finalise succeeds and the parts directory is gone. -/
+theorem sink_finalise_cleanup (s : Sink) (ps : List Nat) (f : Nat → Bytes)
+    (hne : ps ≠ []) (hnd : ps.Nodup) (hw : ∀ p ∈ ps, s.lookup p = some (f p))
+    (hall : ∀ q ∈ s.parts, q.1 ∈ ps) :
+    (Sink.finalise true s ps false).2 = none ∧ (Sink.finalise true s ps false).1.dirExists = false ∧
+      (Sink.finalise true s ps false).1.parts = [] := by
+  cases ps with
+  | nil => exact absurd rfl hne
+  | cons first rest =>
+    have hnd' := List.nodup_cons.1 hnd
+    have hf := hw first List.mem_cons_self
+    obtain ⟨dir, parts, dst⟩ := s
+    have hw1 : ∀ q ∈ rest,
+        (Sink.mk dir (parts.filter (fun x => x.1 != first)) (some (f first))).lookup q = some (f q) := by
+      intro q hq
+      have hqp : q ≠ first := fun e => hnd'.1 (e ▸ hq)
+      have := Sink.lookup_unlink ⟨dir, parts, dst⟩ q first
+      simp only [Sink.unlink, Sink.lookup, hqp, if_false] at this ⊢
+      rw [this]
+      exact hw q (List.mem_cons_of_mem _ hq)
+    have h := Sink.appendParts_ok false f rest _ hnd'.2 hw1
+    have hempty : parts.filter (fun q => !(first :: rest).contains q.1) = [] := by
+      apply List.filter_eq_nil_iff.2
+      intro q hq
+      have := hall q hq
+      simpa using this
+    simp [Sink.finalise, hf, Sink.unlink, h, Sink.filter_filter_contains, hempty]
+
+/-- With `keep_parts=True` finalise succeeds and every non-first part file is still there
+(the first one is always renamed into the destination). -/
+theorem sink_finalise_keep (s : Sink) (first : Nat) (rest : List Nat) (f : Nat → Bytes)
+    (hnd : (first :: rest).Nodup) (hw : ∀ p ∈ first :: rest, s.lookup p = some (f p)) :
+    (Sink.finalise true s (first :: rest) true).2 = none ∧
+      (Sink.finalise true s (first :: rest) true).1.dirExists = s.dirExists ∧
+      ∀ p ∈ rest, (Sink.finalise true s (first :: rest) true).1.lookup p = some (f p) := by
+  have hnd' := List.nodup_cons.1 hnd
+  have hf := hw first List.mem_cons_self
+  obtain ⟨dir, parts, dst⟩ := s
+  have hw1 : ∀ q ∈ rest,
+      (Sink.mk dir (parts.filter (fun x => x.1 != first)) (some (f first))).lookup q = some (f q) := by
+    intro q hq
+    have hqp : q ≠ first := fun e => hnd'.1 (e ▸ hq)
+    have := Sink.lookup_unlink ⟨dir, parts, dst⟩ q first
+    simp only [Sink.unlink, Sink.lookup, hqp, if_false] at this ⊢
+    rw [this]
+    exact hw q (List.mem_cons_of_mem _ hq)
+  have h := Sink.appendParts_ok true f rest _ hnd'.2 hw1
+  simp only [Sink.finalise, hf, Sink.unlink, h, if_true]
+  exact ⟨rfl, rfl, hw1⟩
+
+/-- End to end: parts written once each (any part numbers, any sizes, any order), then
+finalised in the order written: the destination is the concatenation of the data, nothing
+fails and the parts directory is removed. -/
+theorem sink_write_then_finalise (ws : List (Nat × Bytes)) (hne : ws ≠ [])
+    (hnd : (ws.map (·.1)).Nodup) :
+    let r := Sink.finalise true (ws.foldl Sink.write {}) (ws.map (·.1)) false
+    r.2 = none ∧ r.1.dst = some (ws.flatMap (·.2)) ∧ r.1.dirExists = false ∧ r.1.parts = [] := by
+  intro r
+  -- the content function: last (= only) data written under each part number
+  let f : Nat → Bytes := fun p => match ws.lookup p with | some d => d | none => []
+  have hlk : ∀ w ∈ ws, ws.lookup w.1 = some w.2 := by
+    have := Sink.lookup_foldl_write ws hnd {}
+    intro w hw
+    have h1 := this w hw
+    -- `lookup` of the association list itself, by the same argument on a trivial sink
+    clear this
+    induction ws with
+    | nil => simp at hw
+    | cons w0 ws ih =>
+      simp only [List.map_cons] at hnd
+      have hnd' := List.nodup_cons.1 hnd
+      rcases List.mem_cons.1 hw with e | e
+      · subst e; simp [List.lookup_cons]
+      · have hne' : w.1 ≠ w0.1 := fun e' => hnd'.1 (e' ▸ List.mem_map_of_mem e)
+        have : (w.1 == w0.1) = false := by simpa using hne'
+        simp only [List.lookup_cons, this]
+        by_cases hws : ws = []
+        · subst hws; simp at e
+        · exact ih hws hnd'.2 e (Sink.lookup_foldl_write ws hnd'.2 {} w e)
+  have hw : ∀ p ∈ ws.map (·.1), (ws.foldl Sink.write {}).lookup p = some (f p) := by
+    intro p hp
+    obtain ⟨w, hwm, rfl⟩ := List.mem_map.1 hp
+    rw [Sink.lookup_foldl_write ws hnd {} w hwm]
+    simp only [f, hlk w hwm]
+  have hall : ∀ q ∈ (ws.foldl Sink.write {}).parts, q.1 ∈ ws.map (·.1) := by
+    intro q hq
+    rcases Sink.keys_foldl_write ws {} q hq with h | h
+    · exact h
+    · simp at h
+  have hne' : ws.map (·.1) ≠ [] := by simpa using hne
+  have h1 := sink_finalise_concat _ _ false f hne' hnd hw
+  have h2 := sink_finalise_cleanup _ _ f hne' hnd hw hall
+  refine ⟨h2.1, ?_, h2.2.1, h2.2.2⟩
+  show (Sink.finalise true _ _ false).1.dst = _
+  rw [h1.1, List.flatMap_map]
+  congr 1
+  apply List.flatMap_congr
+  intro w hwm
+  simp only [f, hlk w hwm]
+
+/-- `finalise([])` is rejected (`assert len(parts) > 0`) without touching anything. -/
+theorem sink_finalise_empty_list (fixed : Bool) (s : Sink) (keep : Bool) :
+    Sink.finalise fixed s [] keep = (s, some .assertion) := rfl
+
+/-- **sink_finalise_cex** (F17): the code as found raises `ValueError` on an empty non-first
+part and leaves the destination half written (`"abc"` instead of `"abczz"`). -/
+theorem sink_finalise_cex :
+    let s := [(1, [97, 98, 99]), (2, []), (3, [122, 122])].foldl Sink.write {}
+    (Sink.finalise false s [1, 2, 3] false).2 = some .valueError ∧
+      (Sink.finalise false s [1, 2, 3] false).1.dst = some [97, 98, 99] ∧
+      (Sink.finalise true s [1, 2, 3] false).1.dst = some [97, 98, 99, 122, 122] := by decide
+
+/-! ## Limits -/
+
+/-- the model's accessor table is complete (the harness compares it with the protocol) -/
+theorem accessors_complete (a : Acc) : a ∈ Acc.all := by cases a <;> simp [Acc.all]
+
+/-- **limits_as_configured**: every accessor of the (repaired) file sink returns its own
+keyword, or its documented default when the keyword is absent. -/
+theorem limits_as_configured (kw : LimitKw) (a : Acc) :
+    sinkLimit true kw a = match kw.get a with | some v => v | none => sinkDefault a := by
+  cases a <;> simp [sinkLimit, LimitKw.get, sinkDefault, dictGet] <;> split <;> simp_all
+
+/-- … with each maximum above the corresponding minimum whenever the configuration
+(keywords completed by the defaults) is; in particular without keywords. -/
+theorem limits_max_above_min (kw : LimitKw)
+    (h1 : dictGet kw.minWriteSz (sinkDefault .minWriteSz) < dictGet kw.maxWriteSz (sinkDefault .maxWriteSz))
+    (h2 : dictGet kw.minPart (sinkDefault .minPart) < dictGet kw.maxPart (sinkDefault .maxPart)) :
+    sinkLimit true kw .minWriteSz < sinkLimit true kw .maxWriteSz ∧
+      sinkLimit true kw .minPart < sinkLimit true kw .maxPart := by
+  simpa [sinkLimit, sinkDefault] using And.intro h1 h2
+
+theorem limits_defaults_ordered :
+    sinkLimit true {} .minWriteSz < sinkLimit true {} .maxWriteSz ∧
+      sinkLimit true {} .minPart < sinkLimit true {} .maxPart ∧
+      s3Limit .minWriteSz < s3Limit .maxWriteSz ∧ s3Limit .minPart < s3Limit .maxPart := by decide
+
+/-- **limits_cex** (F4): as found, `MPUFileSink(dst, min_write_sz=100, max_write_sz=1000,
+min_part=2, max_part=50)` reports `max_write_sz = 100` and `max_part = 2`. -/
+theorem limits_cex :
+    let kw : LimitKw := { minWriteSz := some 100, maxWriteSz := some 1000, minPart := some 2, maxPart := some 50 }
+    sinkLimit false kw .maxWriteSz = 100 ∧ sinkLimit false kw .maxPart = 2 ∧
+      ¬ (sinkLimit false kw .minWriteSz < sinkLimit false kw .maxWriteSz) := by decide
 
 end OdcGeo.C18
